@@ -32,8 +32,26 @@ def rand_params(rng, ts=None, n=None):
             "stamp": [rng.randrange(256) for _ in range(ts)], "data": [rng.randrange(256) for _ in range(n)]}
 
 
+def crc_zero_prefix_tms(rng, want=4):
+    """TM parameters for which the CRC of the primary header plus the fixed part of the secondary header is 0x0000"""
+    from .c02 import crc16
+    out = []
+    for _ in range(want):
+        apid, seq, ts, n = rng.randrange(2048), rng.randrange(16384), rng.choice([0, 7]), rng.choice([0, 3])
+        pre = [0x08 | (apid >> 8), apid & 0xFF, 0xC0 | (seq >> 8), seq & 0xFF, 0, 7 + ts + n, 0x20, 17, 2, 0, 5]
+        for dest in range(65536):
+            if crc16(pre + [dest >> 8, dest & 0xFF]) == 0:
+                out.append({"ver": 0, "apid": apid, "seq": seq, "service": 17, "subservice": 2, "msgcnt": 5, "dest": dest, "timeref": 0,
+                            "stamp": [rng.randrange(256) for _ in range(ts)], "data": [rng.randrange(256) for _ in range(n)]})
+                break
+    return out
+
+
 def events(ctx):
     rng = ctx.rng
+    for p in crc_zero_prefix_tms(rng):
+        for via in ("tm", "setter", "bytearray"):
+            yield record("tm.rt", {"p": p, "sfx": [], "via": via})
     for ts in range(0, 41):
         for n in (0, 1, 5):
             yield record("tm.rt", {"p": rand_params(rng, ts, n), "sfx": [], "via": "tm"})
